@@ -321,4 +321,401 @@ theorem pre_run (c0 : CSt D) (h1 : c0.dur = c0.cur) (h2 : c0.pend = []) (ops : L
     Pre c0.cur (curHist c0 ops) (crun c0 ops) := by
   simpa [curHist] using (Pre.init c0 h1 h2).run ops
 
+
+/-! ## what `conditional_commit` and `commit` do, field by field -/
+
+theorem tenSeconds_eq : Commit.tenSeconds = 10000000 := rfl
+
+/-- `conditional_commit(k)` at clock `now` either committed (everything executed so far is durable,
+    nothing pending, clock stored) or only counted (then the store is lazy, the count stays ≤ 50
+    and the last commit is at most 10 s old) -/
+theorem condCommit_cases (c : CSt D) (k : Nat) (now : Int) :
+    (Commit.condCommit c k now).cur = c.cur ∧ (Commit.condCommit c k now).lazy = c.lazy ∧
+    (((Commit.condCommit c k now).dur = c.cur ∧ (Commit.condCommit c k now).pend = [] ∧
+      (Commit.condCommit c k now).n = 0 ∧ (Commit.condCommit c k now).last = now ∧
+      (Commit.condCommit c k now).txn = false) ∨
+     ((Commit.condCommit c k now).dur = c.dur ∧ (Commit.condCommit c k now).pend = c.pend ∧
+      (Commit.condCommit c k now).n = c.n + k ∧ (Commit.condCommit c k now).last = c.last ∧
+      (Commit.condCommit c k now).txn = c.txn ∧
+      c.lazy = true ∧ c.n + k ≤ 50 ∧ now - c.last ≤ 10000000)) := by
+  unfold Commit.condCommit
+  by_cases hl : c.lazy = true
+  · by_cases h1 : c.n + k > 50
+    · simp [hl, h1, Commit.commit, tenSeconds_eq]
+    · by_cases h2 : now - c.last > Commit.tenSeconds
+      · simp [hl, h1, h2, Commit.commit]
+      · have : now - c.last ≤ 10000000 := by simp only [tenSeconds_eq] at h2; omega
+        have : c.n + k ≤ 50 := by omega
+        have h3 : ¬ (10000000 < now - c.last) := by omega
+        simp [hl, h1, tenSeconds_eq, h3]; omega
+  · simp [hl, Commit.commit]
+
+/-- the age rule: on the lazy store a `conditional_commit` more than 10 s after the last commit
+    commits -/
+theorem condCommit_age (c : CSt D) (k : Nat) (now : Int)
+    (ha : now - c.last > 10000000) :
+    (Commit.condCommit c k now).dur = c.cur ∧ (Commit.condCommit c k now).pend = [] ∧
+    (Commit.condCommit c k now).last = now ∧ (Commit.condCommit c k now).n = 0 := by
+  rcases condCommit_cases c k now with ⟨_, _, h | h⟩
+  · exact ⟨h.1, h.2.1, h.2.2.2.1, h.2.2.1⟩
+  · omega
+
+/-- the eager store commits at every `conditional_commit` -/
+theorem condCommit_eager (c : CSt D) (k : Nat) (now : Int) (hl : c.lazy = false) :
+    (Commit.condCommit c k now).dur = c.cur ∧ (Commit.condCommit c k now).pend = [] ∧
+    (Commit.condCommit c k now).last = now ∧ (Commit.condCommit c k now).n = 0 := by
+  rcases condCommit_cases c k now with ⟨_, _, h | h⟩
+  · exact ⟨h.1, h.2.1, h.2.2.2.1, h.2.2.1⟩
+  · simp [hl] at h
+
+/-- the count rule -/
+theorem condCommit_count (c : CSt D) (k : Nat) (now : Int) (hn : c.n + k > 50) :
+    (Commit.condCommit c k now).dur = c.cur ∧ (Commit.condCommit c k now).pend = [] ∧
+    (Commit.condCommit c k now).last = now ∧ (Commit.condCommit c k now).n = 0 := by
+  rcases condCommit_cases c k now with ⟨_, _, h | h⟩
+  · exact ⟨h.1, h.2.1, h.2.2.2.1, h.2.2.1⟩
+  · omega
+
+
+/-! ## the bulk INSERT of `insert_many` -/
+
+theorem insertRows_fields (c : CSt D) (now : Int) (b : String) (rows : List (Ev D)) :
+    (Commit.insertRows c now b rows).2.n = c.n ∧ (Commit.insertRows c now b rows).2.last = c.last ∧
+    (Commit.insertRows c now b rows).2.lazy = c.lazy ∧ (Commit.insertRows c now b rows).2.dur = c.dur ∧
+    (Commit.insertRows c now b rows).2.pend.length ≤ c.pend.length + rows.length ∧
+    (∀ t ∈ (Commit.insertRows c now b rows).2.pend, t = now ∨ t ∈ c.pend) := by
+  induction rows generalizing c with
+  | nil => exact ⟨rfl, rfl, rfl, rfl, by simp [Commit.insertRows], fun t ht => Or.inr ht⟩
+  | cons e es ih =>
+    cases heq : Sqlite.insertOne c.cur b e with
+    | error x =>
+      simp only [Commit.insertRows, heq]
+      exact ⟨trivial, trivial, trivial, trivial, by simp, fun t ht => Or.inr ht⟩
+    | ok si =>
+      simp only [Commit.insertRows, heq]
+      obtain ⟨h1, h2, h3, h4, h5, h6⟩ := ih (Commit.wrote c si.1 now)
+      refine ⟨h1, h2, h3, h4, ?_, ?_⟩
+      · simp [Commit.wrote] at h5 ⊢; omega
+      · intro t ht
+        have := h6 t ht
+        simpa [Commit.wrote] using this
+
+theorem insertOne_rowOf (s s' : Sqlite.St D) (b : String) (e : Ev D) (i : Int)
+    (h : Sqlite.insertOne s b e = .ok (s', i)) (b' : String) : Sqlite.rowOf s' b' = Sqlite.rowOf s b' := by
+  unfold Sqlite.insertOne at h
+  split at h
+  · simp at h
+  · simp only [Except.ok.injEq, Prod.mk.injEq] at h
+    rw [← h.1]; rfl
+
+/-- the bulk INSERT fails at its first row or not at all (the bucket row cannot vanish in between) -/
+theorem insertRows_isOk (c : CSt D) (now : Int) (b : String) (rows : List (Ev D))
+    (h : (Sqlite.rowOf c.cur b).isSome) : (Commit.insertRows c now b rows).1.isOk = true := by
+  induction rows generalizing c with
+  | nil => simp [Commit.insertRows, Except.isOk, Except.toBool]
+  | cons e es ih =>
+    cases heq : Sqlite.insertOne c.cur b e with
+    | error x =>
+      unfold Sqlite.insertOne at heq
+      split at heq
+      · rename_i hr; simp [hr] at h
+      · simp at heq
+    | ok si =>
+      simp only [Commit.insertRows, heq]
+      apply ih
+      simpa [Commit.wrote, insertOne_rowOf _ _ _ _ _ heq] using h
+
+theorem insertRows_err (c : CSt D) (now : Int) (b : String) (rows : List (Ev D))
+    (h : (Commit.insertRows c now b rows).1.isOk = false) :
+    (Commit.insertRows c now b rows).2 = { c with txn := true } := by
+  cases rows with
+  | nil => simp [Commit.insertRows, Except.isOk, Except.toBool] at h
+  | cons e es =>
+    cases hr : Sqlite.rowOf c.cur b with
+    | none => simp [Commit.insertRows, Sqlite.insertOne, hr]
+    | some r =>
+      have := insertRows_isOk c now b (e :: es) (by simp [hr])
+      simp [this] at h
+
+theorem insertMany_isOk (c : CSt D) (now : Int) (b : String) (es : List (Ev D)) :
+    (Commit.insertMany c now b es).1.isOk =
+      (Commit.insertRows (upserts c now b (es.filter (fun e => e.id.isSome))) now b
+        (es.filter (fun e => e.id.isNone))).1.isOk := by
+  have key : ∀ (k : Nat) (q : Except Err (CSt D) × CSt D),
+      (match q with
+        | (.error x, c2) => ((.error x : Except Err (CSt D)), c2)
+        | (.ok c2, _) => (.ok (Commit.condCommit c2 k now), Commit.condCommit c2 k now)).1.isOk = q.1.isOk := by
+    rintro k ⟨r, c2'⟩
+    cases r <;> simp [Except.isOk, Except.toBool]
+  exact key _ _
+
+/-- a failing `insert_many` has executed its upserts (with their conditional commits) and no row -/
+theorem insertMany_err (c : CSt D) (now : Int) (b : String) (es : List (Ev D))
+    (h : (Commit.insertMany c now b es).1.isOk = false) :
+    (Commit.insertMany c now b es).2 =
+      { upserts c now b (es.filter (fun e => e.id.isSome)) with txn := true } := by
+  rw [insertMany_snd, h]
+  rw [insertMany_isOk] at h
+  simpa [insertManyMid] using insertRows_err _ _ _ _ h
+
+theorem insertMany_ok (c : CSt D) (now : Int) (b : String) (es : List (Ev D))
+    (h : (Commit.insertMany c now b es).1.isOk = true) :
+    (Commit.insertMany c now b es).2 =
+      Commit.condCommit (insertManyMid c now b es) (es.filter (fun e => e.id.isNone)).length now := by
+  rw [insertMany_snd, h]; rfl
+
+
+theorem insertRows_txn (c : CSt D) (now : Int) (b : String) (rows : List (Ev D)) :
+    (Commit.insertRows c now b rows).2 = c ∨ (Commit.insertRows c now b rows).2.txn = true := by
+  induction rows generalizing c with
+  | nil => exact Or.inl rfl
+  | cons e es ih =>
+    cases heq : Sqlite.insertOne c.cur b e with
+    | error x => simp [Commit.insertRows, heq]
+    | ok si =>
+      simp only [Commit.insertRows, heq]
+      rcases ih (Commit.wrote c si.1 now) with h | h
+      · right; rw [h]; rfl
+      · exact Or.inr h
+
+/-! ## the shape of one step -/
+
+/-- a single event write is one statement followed by `conditional_commit(1)`, or (a failed
+    `insert_one`) nothing but an opened transaction -/
+theorem single_form (c : CSt D) (op : COp D) (h : op.isSingleEventWrite = true) :
+    (cok c op = true ∧ ∃ s, elems c.cur op = [s] ∧
+        cstep c op = Commit.condCommit (Commit.wrote c s op.now) 1 op.now) ∨
+    (cok c op = false ∧ elems c.cur op = [] ∧ cstep c op = { c with txn := true }) := by
+  cases op with
+  | insertOne now b e =>
+    cases heq : Sqlite.insertOne c.cur b e with
+    | error x => simp [cok, cstep, elems, Commit.insertOne, heq, Except.isOk, Except.toBool]
+    | ok si => simp [cok, cstep, elems, Commit.insertOne, heq, Except.isOk, Except.toBool, COp.now]
+  | replace now b i e => exact Or.inl ⟨rfl, _, rfl, rfl⟩
+  | replaceLast now b e => exact Or.inl ⟨rfl, _, rfl, rfl⟩
+  | delete now b i => exact Or.inl ⟨rfl, _, rfl, rfl⟩
+  | _ => simp [COp.isSingleEventWrite] at h
+
+/-- a bucket operation that returns is one statement followed by `commit()`; one that raises has
+    committed without a write (missing bucket) or done nothing -/
+theorem bucket_form (c : CSt D) (op : COp D) (h : op.isBucketOp = true) :
+    (cok c op = true ∧ ∃ s, elems c.cur op = [s] ∧
+        cstep c op = Commit.commit (Commit.wroteB c s) op.now) ∨
+    (cok c op = false ∧ elems c.cur op = [] ∧
+      (cstep c op = Commit.commit { c with txn := true } op.now ∨
+       cstep c op = { c with txn := true } ∨ cstep c op = c)) := by
+  cases op with
+  | createBucket now b m =>
+    cases heq : Sqlite.createBucket c.cur b m with
+    | error x => simp [cok, cstep, elems, Commit.createBucket, heq, Except.isOk, Except.toBool]
+    | ok s => simp [cok, cstep, elems, Commit.createBucket, heq, Except.isOk, Except.toBool, COp.now]
+  | updateBucket now b u =>
+    by_cases hu : u.isEmpty = true
+    · have : Sqlite.updateBucket c.cur b u = .error .valueError := by simp [Sqlite.updateBucket, hu]
+      simp [cok, cstep, elems, Commit.updateBucket, hu, this, Except.isOk, Except.toBool]
+    · cases heq : Sqlite.updateBucket c.cur b u with
+      | error x => simp [cok, cstep, elems, Commit.updateBucket, heq, hu, Except.isOk, Except.toBool, COp.now]
+      | ok s => simp [cok, cstep, elems, Commit.updateBucket, heq, hu, Except.isOk, Except.toBool, COp.now]
+  | deleteBucket now b =>
+    cases heq : Sqlite.deleteBucket c.cur b with
+    | error x => simp [cok, cstep, elems, Commit.deleteBucket, heq, Except.isOk, Except.toBool, COp.now]
+    | ok s => simp [cok, cstep, elems, Commit.deleteBucket, heq, Except.isOk, Except.toBool, COp.now]
+  | _ => simp [COp.isBucketOp] at h
+
+/-- every step is composed of six primitives; a predicate closed under them is closed under `cstep` -/
+theorem cstep_induct (J : CSt D → Prop) (now : Int)
+    (h_evw : ∀ c s, J c → J (Commit.condCommit (Commit.wrote c s now) 1 now))
+    (h_cb : ∀ c s, J c → J (Commit.commit (Commit.wroteB c s) now))
+    (h_ct : ∀ c, J c → J (Commit.commit { c with txn := true } now))
+    (h_t : ∀ c, J c → J { c with txn := true })
+    (h_c : ∀ c, J c → J (Commit.commit c now))
+    (h_bulk : ∀ c b rows, J c → (Commit.insertRows c now b rows).1.isOk = true →
+      J (Commit.condCommit (Commit.insertRows c now b rows).2 rows.length now))
+    (c : CSt D) (op : COp D) (hn : op.now = now) (hc : J c) : J (cstep c op) := by
+  have h_ups : ∀ (ups : List (Ev D)) (b : String) c, J c → J (upserts c now b ups) := by
+    intro ups b
+    induction ups with
+    | nil => intro c hc; exact hc
+    | cons e es ih => intro c hc; exact ih _ (h_evw _ _ hc)
+  cases op with
+  | insertMany now' b es =>
+    cases hn
+    simp only [cstep]
+    cases hok : (Commit.insertMany c now' b es).1.isOk with
+    | true =>
+      rw [insertMany_ok _ _ _ _ hok]
+      rw [insertMany_isOk] at hok
+      exact h_bulk _ _ _ (h_ups _ _ _ hc) hok
+    | false =>
+      rw [insertMany_err _ _ _ _ hok]
+      exact h_t _ (h_ups _ _ _ hc)
+  | read now' => cases hn; exact h_c _ hc
+  | createBucket now' b m =>
+    rcases bucket_form c (.createBucket now' b m) rfl with ⟨_, s, _, h⟩ | ⟨_, _, h | h | h⟩ <;>
+      rw [h] <;> cases hn <;> first | exact h_cb _ _ hc | exact h_ct _ hc | exact h_t _ hc | exact hc
+  | updateBucket now' b u =>
+    rcases bucket_form c (.updateBucket now' b u) rfl with ⟨_, s, _, h⟩ | ⟨_, _, h | h | h⟩ <;>
+      rw [h] <;> cases hn <;> first | exact h_cb _ _ hc | exact h_ct _ hc | exact h_t _ hc | exact hc
+  | deleteBucket now' b =>
+    rcases bucket_form c (.deleteBucket now' b) rfl with ⟨_, s, _, h⟩ | ⟨_, _, h | h | h⟩ <;>
+      rw [h] <;> cases hn <;> first | exact h_cb _ _ hc | exact h_ct _ hc | exact h_t _ hc | exact hc
+  | insertOne now' b e =>
+    rcases single_form c (.insertOne now' b e) rfl with ⟨_, s, _, h⟩ | ⟨_, _, h⟩ <;>
+      rw [h] <;> cases hn <;> first | exact h_evw _ _ hc | exact h_t _ hc
+  | replace now' b i e => cases hn; exact h_evw _ _ hc
+  | replaceLast now' b e => cases hn; exact h_evw _ _ hc
+  | delete now' b i => cases hn; exact h_evw _ _ hc
+
+
+/-! ## invariants at operation boundaries -/
+
+/-- lazy store: no more pending event writes than counted statements, and at most 50 of those -/
+def Bnd (c : CSt D) : Prop := c.lazy = true ∧ c.pend.length ≤ c.n ∧ c.n ≤ 50
+
+theorem Bnd.step {c : CSt D} (hc : Bnd c) (op : COp D) : Bnd (cstep c op) := by
+  refine cstep_induct Bnd op.now ?_ ?_ ?_ ?_ ?_ ?_ c op rfl hc
+  · intro c s ⟨h1, h2, h3⟩
+    rcases condCommit_cases (Commit.wrote c s op.now) 1 op.now with ⟨_, hl, h | h⟩
+    · exact ⟨by rw [hl]; exact h1, by simp [h.2.1], by simp [h.2.2.1]⟩
+    · refine ⟨by rw [hl]; exact h1, ?_, ?_⟩
+      · rw [h.2.1, h.2.2.1]; simp [Commit.wrote]; omega
+      · rw [h.2.2.1]; exact h.2.2.2.2.2.2.1
+  · intro c s ⟨h1, _, _⟩; exact ⟨h1, by simp [Commit.commit], by simp [Commit.commit]⟩
+  · intro c ⟨h1, _, _⟩; exact ⟨h1, by simp [Commit.commit], by simp [Commit.commit]⟩
+  · intro c h; exact h
+  · intro c ⟨h1, _, _⟩; exact ⟨h1, by simp [Commit.commit], by simp [Commit.commit]⟩
+  · intro c b rows ⟨h1, h2, h3⟩ _
+    obtain ⟨f1, _, f3, _, f5, _⟩ := insertRows_fields c op.now b rows
+    rcases condCommit_cases (Commit.insertRows c op.now b rows).2 rows.length op.now with ⟨_, hl, h | h⟩
+    · exact ⟨by rw [hl, f3]; exact h1, by simp [h.2.1], by simp [h.2.2.1]⟩
+    · refine ⟨by rw [hl, f3]; exact h1, ?_, ?_⟩
+      · rw [h.2.1, h.2.2.1]; omega
+      · rw [h.2.2.1]; exact h.2.2.2.2.2.2.1
+
+theorem Bnd.run {c : CSt D} (hc : Bnd c) (ops : List (COp D)) : Bnd (crun c ops) := by
+  induction ops generalizing c with
+  | nil => exact hc
+  | cons op ops ih => exact ih (hc.step op)
+
+/-- inside `insert_many` (after the upserts and the bulk INSERT, before the final conditional
+    commit) the bound is 50 + number of rows -/
+theorem Bnd.mid {c : CSt D} (hc : Bnd c) (now : Int) (b : String) (es : List (Ev D)) :
+    (insertManyMid c now b es).pend.length ≤ (insertManyMid c now b es).n + (es.filter (fun e => e.id.isNone)).length ∧
+    (insertManyMid c now b es).n ≤ 50 := by
+  have hu : Bnd (upserts c now b (es.filter (fun e => e.id.isSome))) := by
+    generalize es.filter (fun e => e.id.isSome) = ups
+    induction ups generalizing c with
+    | nil => exact hc
+    | cons e es ih => exact ih (hc.step (.replace now b (e.id.getD 0) e))
+  obtain ⟨f1, _, _, _, f5, _⟩ := insertRows_fields (upserts c now b (es.filter (fun e => e.id.isSome))) now b
+    (es.filter (fun e => e.id.isNone))
+  unfold insertManyMid
+  rw [f1]
+  exact ⟨by have := hu.2.1; omega, hu.2.2⟩
+
+/-- eager store: everything executed is durable -/
+def Eager (c : CSt D) : Prop := c.lazy = false ∧ c.dur = c.cur ∧ c.pend = []
+
+theorem Eager.step {c : CSt D} (hc : Eager c) (op : COp D) : Eager (cstep c op) := by
+  refine cstep_induct Eager op.now ?_ ?_ ?_ ?_ ?_ ?_ c op rfl hc
+  · intro c s ⟨h1, _, _⟩
+    obtain ⟨hc', hl, _⟩ := condCommit_cases (Commit.wrote c s op.now) 1 op.now
+    obtain ⟨e1, e2, _⟩ := condCommit_eager (Commit.wrote c s op.now) 1 op.now h1
+    exact ⟨by rw [hl]; exact h1, by rw [e1, hc'], e2⟩
+  · intro c s ⟨h1, _, _⟩; exact ⟨h1, rfl, rfl⟩
+  · intro c ⟨h1, _, _⟩; exact ⟨h1, rfl, rfl⟩
+  · intro c h; exact h
+  · intro c ⟨h1, _, _⟩; exact ⟨h1, rfl, rfl⟩
+  · intro c b rows ⟨h1, _, _⟩ _
+    obtain ⟨_, _, f3, _⟩ := insertRows_fields c op.now b rows
+    obtain ⟨hc', hl, _⟩ := condCommit_cases (Commit.insertRows c op.now b rows).2 rows.length op.now
+    obtain ⟨e1, e2, _⟩ := condCommit_eager (Commit.insertRows c op.now b rows).2 rows.length op.now (by rw [f3]; exact h1)
+    exact ⟨by rw [hl, f3]; exact h1, by rw [e1, hc'], e2⟩
+
+theorem Eager.run {c : CSt D} (hc : Eager c) (ops : List (COp D)) : Eager (crun c ops) := by
+  induction ops generalizing c with
+  | nil => exact hc
+  | cons op ops ih => exact ih (hc.step op)
+
+/-- without an open transaction nothing is at risk -/
+def Clean (c : CSt D) : Prop := c.txn = false → c.dur = c.cur ∧ c.pend = []
+
+theorem Clean.step {c : CSt D} (hc : Clean c) (op : COp D) : Clean (cstep c op) := by
+  refine cstep_induct Clean op.now ?_ ?_ ?_ ?_ ?_ ?_ c op rfl hc
+  · intro c s _ ht
+    rcases condCommit_cases (Commit.wrote c s op.now) 1 op.now with ⟨hc', _, h | h⟩
+    · exact ⟨by rw [h.1, hc'], h.2.1⟩
+    · rw [h.2.2.2.2.1] at ht; simp [Commit.wrote] at ht
+  · intro c s _ _; exact ⟨rfl, rfl⟩
+  · intro c _ _; exact ⟨rfl, rfl⟩
+  · intro c _ ht; simp at ht
+  · intro c _ _; exact ⟨rfl, rfl⟩
+  · intro c b rows h _ ht
+    rcases condCommit_cases (Commit.insertRows c op.now b rows).2 rows.length op.now with ⟨hc', _, h' | h'⟩
+    · exact ⟨by rw [h'.1, hc'], h'.2.1⟩
+    · rw [h'.2.2.2.2.1] at ht
+      rcases insertRows_txn c op.now b rows with e | e
+      · rw [e] at ht h' hc' ⊢
+        rw [h'.1, h'.2.1, hc']; exact h ht
+      · rw [e] at ht; simp at ht
+
+theorem Clean.run {c : CSt D} (hc : Clean c) (ops : List (COp D)) : Clean (crun c ops) := by
+  induction ops generalizing c with
+  | nil => exact hc
+  | cons op ops ih => exact ih (hc.step op)
+
+/-- the clock readings of a history never go back, starting from `t` -/
+def Mono : Int → List (COp D) → Prop
+  | _, [] => True
+  | t, op :: ops => t ≤ op.now ∧ Mono op.now ops
+
+/-- the clock reading of the last operation (or `t` if there is none) -/
+def lastNow : Int → List (COp D) → Int
+  | t, [] => t
+  | _, op :: ops => lastNow op.now ops
+
+/-- every pending write was issued after the last commit and at most 10 s after it -/
+def Young (clk : Int) (c : CSt D) : Prop :=
+  c.last ≤ clk ∧ ∀ t ∈ c.pend, c.last ≤ t ∧ t ≤ clk ∧ t - c.last ≤ 10000000
+
+theorem Young.mono {clk clk' : Int} {c : CSt D} (h : Young clk c) (hk : clk ≤ clk') : Young clk' c :=
+  ⟨by have := h.1; omega, fun t ht => by have := h.2 t ht; omega⟩
+
+theorem Young.step {clk : Int} {c : CSt D} (hc : Young clk c) (op : COp D) (hk : clk ≤ op.now) :
+    Young op.now (cstep c op) := by
+  refine cstep_induct (Young op.now) op.now ?_ ?_ ?_ ?_ ?_ ?_ c op rfl (hc.mono hk)
+  · intro c s ⟨h1, h2⟩
+    rcases condCommit_cases (Commit.wrote c s op.now) 1 op.now with ⟨_, _, h | h⟩
+    · exact ⟨by rw [h.2.2.2.1]; omega, by rw [h.2.1]; simp⟩
+    · refine ⟨by rw [h.2.2.2.1]; exact h1, ?_⟩
+      rw [h.2.1, h.2.2.2.1]
+      have h8 := h.2.2.2.2.2.2.2
+      intro t ht
+      simp only [Commit.wrote, List.mem_cons] at ht h8 ⊢
+      rcases ht with rfl | ht
+      · omega
+      · exact h2 t ht
+  · intro c s _; exact ⟨by simp [Commit.commit], by simp [Commit.commit]⟩
+  · intro c _; exact ⟨by simp [Commit.commit], by simp [Commit.commit]⟩
+  · intro c h; exact h
+  · intro c _; exact ⟨by simp [Commit.commit], by simp [Commit.commit]⟩
+  · intro c b rows ⟨h1, h2⟩ _
+    obtain ⟨_, f2, _, _, _, f6⟩ := insertRows_fields c op.now b rows
+    rcases condCommit_cases (Commit.insertRows c op.now b rows).2 rows.length op.now with ⟨_, _, h | h⟩
+    · exact ⟨by rw [h.2.2.2.1]; omega, by rw [h.2.1]; simp⟩
+    · refine ⟨by rw [h.2.2.2.1, f2]; exact h1, ?_⟩
+      rw [h.2.1, h.2.2.2.1, f2]
+      have h8 := h.2.2.2.2.2.2.2
+      rw [f2] at h8
+      intro t ht
+      rcases f6 t ht with rfl | ht
+      · omega
+      · exact h2 t ht
+
+theorem Young.run {clk : Int} {c : CSt D} (hc : Young clk c) (ops : List (COp D)) (hm : Mono clk ops) :
+    Young (lastNow clk ops) (crun c ops) := by
+  induction ops generalizing c clk with
+  | nil => exact hc
+  | cons op ops ih => exact ih (hc.step op hm.1) hm.2
+
 end AwProofs.CommitL
